@@ -22,7 +22,7 @@ RULE = (
     "up to length 5. Negative cases: duplicate block names, named block in def / in <%call>. distinct = by "
     "template texts; non-trivial = some member is overridden at two or more levels."
 )
-RULE += " added since: attribute values that are falsy (None, 0, '', False), every declaration mask per level, nested named blocks, two bases alternating on one lookup through a dynamic <%inherit>, keyword-only <%page args>."
+RULE += " added since: attribute values that are falsy (None, 0, '', False), every declaration mask per level, nested named blocks, two bases alternating on one lookup through a dynamic <%inherit>, keyword-only <%page args>. every def and named block of every chain template rendered alone through get_def(), judged with that template as the most-derived one."
 ASSUMPTIONS = ["reference resolution in checks/c06.py (from the statement)"]
 MIN_NONTRIVIAL = 200
 REQUIRED_COUNTERS = ["chains_rendered", "dispatch_calls_model", "blocks_rendered_model", "negative_cases", "page_args_received", "missing_member_errors_matched", "get_def_renders"]
